@@ -389,6 +389,63 @@ def collect(tree, spec, path, index):
         collect(tree['c'][i], sub, path + (i + 1,), index)
 
 
+def repo_test_stacks(check):
+    """code -> spec on the repository's own tests: every glom() call that ends in an error is recorded
+    (scope events + the real message, harness/verif_stack_plugin.py); TLC replays the events through the
+    frame machine and evaluates the C05 laws on the message (spec/Trace_Stack.tla)"""
+    import json
+    import os
+    import shutil
+    import subprocess
+    import tempfile
+    repo = os.environ.get('GLOM_REPO', '/repo')
+    scratch = tempfile.mkdtemp(prefix='glomverif_repostacks_')
+    try:
+        out = os.path.join(scratch, 'rows.ndjson')
+        env = dict(os.environ, GLOM_VERIF='1', VERIF_STACK_OUT=out,
+                   PYTHONPATH=repo + os.pathsep + os.path.join(vlib.VERIF, 'harness'))
+        p = subprocess.run(['/venv/bin/python', '-m', 'pytest', '-q', '-p', 'no:cacheprovider', '-p', 'verif_stack_plugin',
+                            '--deselect', 'glom/test/test_cli.py::test_main', 'glom/test'],
+                           cwd=repo, env=env, capture_output=True, text=True, timeout=900)
+        if not os.path.exists(out):
+            raise vlib.MachineryError('the repository tests did not produce a stack file:\n' + p.stdout[-800:] + p.stderr[-800:])
+        rows = [json.loads(l) for l in open(out)]
+    finally:
+        shutil.rmtree(scratch, ignore_errors=True)
+    good = [r for r in rows if 'events' in r]
+    if len(good) < 60:
+        raise vlib.MachineryError('only %d failing glom() calls recorded from the repository tests' % len(good))
+    for r in rows:
+        if 'events' in r:
+            continue
+        check.cov['evaluations'] += 1
+        if 'recorder' in r.get('skipped', ''):
+            raise vlib.MachineryError('the stack recorder failed: %s' % r['skipped'])
+        if r.get('skipped') == 'no trace header' and not r.get('own_str'):
+            check.violation(dict(kind='repo-test-message', test=r.get('test'), message=r.get('message'), cls=r.get('cls')),
+                            'the message of an error raised by glom() in %s has no target-spec trace: %r'
+                            % (r.get('test'), r.get('message')), matcher=match_finding)
+        elif 'unparsed' in r:
+            check.violation(dict(kind='repo-test-message', test=r.get('test'), message=r.get('message')),
+                            'the trace lines of an error raised in %s do not nest (%s)' % (r.get('test'), r['unparsed']),
+                            matcher=match_finding)
+    check.cov['evaluations'] += len(good)
+    rejects = vlib.validate_rows(check, 'Trace_Stack', good, 'repo-test-stacks', chunk=40)
+    drift = 0
+    for row, rej in rejects:
+        if rej['clause'] == 'drift':
+            drift += 1
+            check.validated(1)
+            check.extra.setdefault('repo_test_stack_drift', []).append(row['message'][:400])
+            continue
+        check.violation(dict(kind='repo-test-stack', test=row.get('test'), events=row['events'][:60], message=row['message'], clause=rej['clause']),
+                        'the message of an error raised in %s breaks the %s law: %s'
+                        % (row.get('test'), rej['clause'], row['message'][:300]), matcher=match_finding)
+    check.extra['repo_test_failing_calls'] = len(good)
+    check.extra['repo_test_stack_drift_rows'] = drift
+    check.extra['repo_test_branching_messages'] = sum(1 for r in good if any(e['kind'] == 'B' for e in r['n']))
+
+
 def run_mutants(check):
     rejected = []
     for m in ('nowalk', 'noforgive', 'lazydup'):
@@ -426,6 +483,7 @@ def main(tier, seed):
             check.violation(b['case'], b['why'], matcher=match_finding)
     check.extra['drift_replayed'] = ndrift
     run_mutants(check)
+    repo_test_stacks(check)
     check.extra['recorded_rows'] = record(check, {'quick': 1500, 'thorough': 15000}[tier], seed)
     check.extra['constants'] = consts
     check.assumptions += ['payload text (reprs) is glom\'s own bbrepr of the real spec / target objects; truncation is accepted as a prefix',
